@@ -285,7 +285,7 @@ func (c *FnCtx) enterLoop(bc *blockCtx, li *loopInfo, rr *regionRun) {
 	if hasInv {
 		for _, inv := range li.spec.Invs {
 			env := c.loopEnv(bc, li)
-			t, err := env.evalBool(inv.E)
+			t, err := env.evalAssume(inv.E)
 			if err != nil {
 				continue // reported at established
 			}
@@ -364,6 +364,16 @@ func (c *FnCtx) loopEnv(bc *blockCtx, li *loopInfo) *Env {
 func (c *FnCtx) loopEnvSt(fr *Frame, st *State, li *loopInfo) *Env {
 	bc := &blockCtx{fr: fr, st: st}
 	env := c.newEnv(bc.fr, bc.st, c.top.entrySt)
+	// visited(k): keys already produced by the map range driving this loop
+	for _, in := range li.header.Instrs {
+		if nx, ok := in.(*ssa.Next); ok {
+			if rg, ok := nx.Iter.(*ssa.Range); ok {
+				if v, ok := st.ghost["$range."+rg.Name()]; ok {
+					env.vars["$visited"] = v
+				}
+			}
+		}
+	}
 	// $idx: number of completed iterations of a range-over-slice loop
 	for _, in := range li.header.Instrs {
 		if s, ok := in.(*ssa.Store); ok {
